@@ -14,14 +14,58 @@ import (
 
 // Mem maps a memory key to the SMT term (sort memSort(leaf)) holding it.
 // A key that is absent denotes the function-entry memory $M0_<key>.
-type Mem struct{ m map[string]string }
+type Mem struct {
+	m map[string]string
+	// wild: key prefixes havocked by a `modifies prefix.*` clause. A key with such a prefix that
+	// is not in m denotes the unknown memory $Mw<epoch>_<key>, not the entry memory.
+	wild []wildHavoc
+	// lazy join: a key that is neither in m nor covered by wild (all of which are younger than the
+	// join) is the ite over the joined memories, built on first use
+	lazyConds []string
+	lazyMems  []*Mem
+}
+
+type wildHavoc struct {
+	prefix string
+	epoch  int
+}
 
 func (m *Mem) clone() *Mem {
 	n := &Mem{m: make(map[string]string, len(m.m))}
 	for k, v := range m.m {
 		n.m[k] = v
 	}
+	n.wild = append([]wildHavoc(nil), m.wild...)
+	n.lazyConds, n.lazyMems = m.lazyConds, m.lazyMems
 	return n
+}
+
+// wildFor returns the latest wildcard havoc covering key, if any.
+func (m *Mem) wildFor(key string) (wildHavoc, bool) {
+	for i := len(m.wild) - 1; i >= 0; i-- {
+		if strings.HasPrefix(key, m.wild[i].prefix) {
+			return m.wild[i], true
+		}
+	}
+	return wildHavoc{}, false
+}
+
+// havocPrefix forgets everything about the memories whose key starts with prefix.
+func (vc *VC) havocPrefix(m *Mem, prefix string) {
+	vc.epoch++
+	for k := range m.m {
+		if strings.HasPrefix(k, prefix) {
+			delete(m.m, k)
+		}
+	}
+	m.wild = append(m.wild, wildHavoc{prefix, vc.epoch})
+}
+
+func isWildKey(k string) (string, bool) {
+	if strings.HasSuffix(k, "*") {
+		return strings.TrimSuffix(k, "*"), true
+	}
+	return "", false
 }
 
 type Oblig struct {
@@ -98,6 +142,7 @@ type VC struct {
 	mergedResults []SVal
 	assertDone    map[string]bool
 	crossAssumed  map[string]bool
+	epoch         int
 }
 
 type debugBinding struct {
@@ -160,6 +205,32 @@ func (vc *VC) memGet(m *Mem, key string, leaf Sort) string {
 	if t, ok := m.m[key]; ok {
 		return t
 	}
+	if w, ok := m.wildFor(key); ok {
+		// same (epoch, key) always names the same unknown memory, whichever clone asks first
+		name := vc.declMem(fmt.Sprintf("$Mw%d_%s", w.epoch, sanitize(key)), key, leaf, true)
+		m.m[key] = name // materialise, so that joins merge it like any other memory
+		return name
+	}
+	if len(m.lazyMems) > 0 {
+		var terms []string
+		same := true
+		for _, p := range m.lazyMems {
+			t := vc.memGet(p, key, leaf)
+			terms = append(terms, t)
+			if t != terms[0] {
+				same = false
+			}
+		}
+		t := terms[len(terms)-1]
+		if !same {
+			for i := len(terms) - 2; i >= 0; i-- {
+				t = ite(m.lazyConds[i], terms[i], t)
+			}
+			t = vc.def("Mj_"+key, memSort(leaf), t)
+		}
+		m.m[key] = t
+		return t
+	}
 	return vc.declMem("$M0_"+sanitize(key), key, leaf, true)
 }
 
@@ -184,6 +255,16 @@ func (vc *VC) declMem(name, key string, leaf Sort, twoLevel bool) string {
 			hi = fmt.Sprintf(" (< (select (select %s o) i) $A0)", name)
 		}
 		vc.emit(fmt.Sprintf("(assert (forall ((o Int) (i Int)) (! (and (< 0 (select (select %s o) i))%s) :pattern ((select (select %s o) i)))))", name, hi, name))
+		return name
+	}
+	if strings.HasSuffix(key, "#o") && twoLevel {
+		// object components of stored slices / strings / pointers: object ids are non-negative, and
+		// every object reachable from the entry memory predates this function's allocations
+		hi := ""
+		if strings.HasPrefix(name, "$M0_") {
+			hi = fmt.Sprintf(" (< (select (select %s o) i) $A0)", name)
+		}
+		vc.emit(fmt.Sprintf("(assert (forall ((o Int) (i Int)) (! (and (<= 0 (select (select %s o) i))%s) :pattern ((select (select %s o) i)))))", name, hi, name))
 		return name
 	}
 	if key == "buffer.len" {
@@ -584,6 +665,9 @@ func (vc *VC) checkLoopStore(key, obj string) {
 		ok := false
 		for _, m := range l.mods {
 			if m.key == key && (m.obj == "" || m.obj == obj) {
+				ok = true
+			}
+			if p, wild := isWildKey(m.key); wild && strings.HasPrefix(key, p) {
 				ok = true
 			}
 		}
